@@ -74,7 +74,7 @@ P = {
     ),
     "C19": (
         "model_checking",
-        "explicit-state exploration of the interpreter-global library state: every ordered pair (and shared-state triple) of a 139-call catalogue executed in its own forked child of a pristine parent and compared with the fresh result",
+        "explicit-state exploration of the interpreter-global library state: every ordered pair (and shared-state triple) of a catalogue of about 280 closed calls (every public codec family; explicit, default-argument and default-built-object variants; lookup APIs; failing calls) executed in its own forked child of a pristine parent and compared with the fresh result",
         "All ordered pairs (i,j) of the catalogue (every public codec family; explicit / default-argument / default-constructed-object variants) and all ordered triples over the ops touching shared state; the last call must return the digest it returns in a fresh interpreter state and every call's argument buffers are hashed before/after. Fresh digests are cross-checked against a brand-new interpreter, two interpreters with different fake dates, and two clock/randomness seam settings.",
         "Bound: sequence length 3, the catalogue as alphabet. Trusted: fork of a pristine parent == fresh state (cross-checked), generic structural digest of results.",
         "DESIGN.md §3 C19",
@@ -203,7 +203,7 @@ def main():
         ],
         "checks": checks,
         "not_applicable": na,
-        "notes": "All checks: ./check <id> --tier quick|thorough; VERIF_SEED rotates additional background values (and the non-UTC process time zone of the main pass) only. Every command runs two passes: the main pass and, if that held, a second pass of the same check (quick-tier bounds) in a deliberately different process environment (python -O -X dev -W error, time zone on the other side of UTC, DEBUG logging, decimal precision 6, other hash seed, test-extra packages not importable; DESIGN.md 9.5); its coverage is merged into the same evidence file (coverage.hostile_environment_pass), a violation found there prints the usual VIOLATION line and its replay file is replayed in that environment by ./check <id> --replay. VERIF_SKIP_OPT_PASS=1 skips the second pass (debugging only). KNOWN_FINDINGS.json is read-only at run time.",
+        "notes": "All checks: ./check <id> --tier quick|thorough; VERIF_SEED rotates additional background values (and the non-UTC process time zone of the main pass) only. Every command runs two passes: the main pass and, if that held, a second pass of the same check (quick-tier bounds) in a deliberately different process environment (python -O -X dev -W error, time zone on the other side of UTC, DEBUG logging, decimal precision 6, other hash seed, test-extra packages not importable; DESIGN.md 9.5); its coverage is merged into the same evidence file (coverage.hostile_environment_pass), a violation found there prints the usual VIOLATION line and its replay file is replayed in that environment by ./check <id> --replay. VERIF_SKIP_OPT_PASS=1 skips the second pass (debugging only). KNOWN_FINDINGS.json is read-only at run time. Besides the spaces named per check, every codec check explores call histories with the real objects (results kept / overwritten by the caller, one argument buffer overwritten in place between calls, failing calls first, 2^16 repetitions and 70 000 distinct inputs where a call leaves a trace in class/module data; mc/hist.py, DESIGN.md 9.4). /verif/seeded holds the confirmed property-breaking changes the checks were tried against, /verif/preserving 24 behaviour-preserving changes on which every check stays silent (tools/eval_preserving.sh).",
     }
     with open(os.path.join(HERE, "MANIFEST.json"), "w") as f:
         json.dump(doc, f, indent=1)
